@@ -38,7 +38,7 @@ func init() {
 	})
 	addMutants("C20", []Mutant{
 		{ID: "c20-negttl-minimum-always", File: "middleware/dns64/dns64.go", Expect: "C20-R7",
-			Old: "\t\t\tif soa.Minttl > 0 && soa.Minttl < ttl {", New: "\t\t\tif soa.Minttl > 0 {",
+			Old: "\t\t\tif soa.Minttl < ttl {", New: "\t\t\tif soa.Minttl > 0 {",
 			Why: "synthesised TTL outlives the NODATA it derives from (seeded C20-w2B)"},
 	})
 	addMutants("C11", []Mutant{
